@@ -3,6 +3,7 @@ module vh
 go 1.23.3
 
 require (
+	github.com/99designs/gqlgen v0.17.41
 	github.com/golang-jwt/jwt/v4 v4.5.2
 	github.com/movio/bramble v0.0.0
 	github.com/prometheus/client_golang v1.11.1
@@ -10,7 +11,6 @@ require (
 )
 
 require (
-	github.com/99designs/gqlgen v0.17.41 // indirect
 	github.com/agnivade/levenshtein v1.1.1 // indirect
 	github.com/beorn7/perks v1.0.1 // indirect
 	github.com/cenkalti/backoff/v4 v4.3.0 // indirect
